@@ -141,16 +141,25 @@ fn try_format_with_timezone(
         .transpose()?;
 
     match timezone {
-        Some(TimeZone::Named(tz)) => Ok(dt
-            .with_timezone(&tz)
-            .format_with_items(items.into_iter())
-            .to_string()),
-        Some(TimeZone::Local) => Ok(dt
-            .with_timezone(&chrono::Local)
-            .format_with_items(items.into_iter())
-            .to_string()),
-        None => Ok(dt.format_with_items(items.into_iter()).to_string()),
+        Some(TimeZone::Named(tz)) => {
+            render(dt.with_timezone(&tz).format_with_items(items.into_iter()))
+        }
+        Some(TimeZone::Local) => render(
+            dt.with_timezone(&chrono::Local)
+                .format_with_items(items.into_iter()),
+        ),
+        None => render(dt.format_with_items(items.into_iter())),
     }
+}
+
+/// Some specifiers (such as `%#z`) are accepted by the strftime parser but can only be used for
+/// parsing: formatting them fails, and `to_string()` would turn that failure into a panic.
+fn render(formatted: impl std::fmt::Display) -> ExpressionResult<String> {
+    use std::fmt::Write;
+
+    let mut output = String::new();
+    write!(output, "{formatted}").map_err(|_| "invalid format")?;
+    Ok(output)
 }
 
 #[cfg(test)]
